@@ -212,6 +212,10 @@ func c11GenAuth(r *rand.Rand, odd bool) c11Auth {
 		a.port = &p
 		a.tricky += "+port"
 	}
+	c11Flags(&a)
+	if !a.wf {
+		a.tricky = "name-looks-v4"
+	}
 	return a
 }
 
@@ -292,23 +296,37 @@ func c11Vary(r *rand.Rand, a c11Auth, odd bool) c11Auth {
 		return c11GenAuth(r, odd)
 	default: // identical
 	}
-	// recompute flags
-	if b.kind == "name" {
-		b.wf = true
-		if len(b.parts) == 4 {
-			all := true
-			for _, p := range b.parts {
-				all = all && c11IsDecOctet(p)
-			}
-			if all {
-				b.wf, b.rfc = false, false
-			}
+	c11Flags(&b)
+	return b
+}
+
+// c11Flags recomputes wf (WfAuthority) and rfc (RFC 3986 grammar with non-empty labels) from
+// the structure, by the Go side's own reading of the definitions.
+func c11Flags(a *c11Auth) {
+	a.wf, a.rfc = true, true
+	if a.kind != "name" {
+		if a.zone != nil && *a.zone == "" {
+			a.rfc = false
 		}
-		if b.parts[len(b.parts)-1] == "" {
-			b.wf, b.rfc = false, false
+		return
+	}
+	const regName = "abcdefghijklmnopqrstuvwxyzABCDEFGHIJKLMNOPQRSTUVWXYZ0123456789-_~!$&'()*+,;="
+	allOctets := len(a.parts) == 4
+	for _, p := range a.parts {
+		allOctets = allOctets && c11IsDecOctet(p)
+		if p == "" || strings.Trim(p, regName) != "" {
+			a.rfc = false
+		}
+		if strings.ContainsAny(p, ".:[]") {
+			a.wf = false
 		}
 	}
-	return b
+	if allOctets { // text of an IPv4 address: not a reg-name (first-match-wins)
+		a.wf, a.rfc = false, false
+	}
+	if a.parts[len(a.parts)-1] == "" {
+		a.wf, a.rfc = false, false
+	}
 }
 
 // ---------------------------------------------------------------- independent oracle (net/url)
